@@ -245,6 +245,7 @@ def run(ctx):
     from x86enc import check_aligned_load_offsets
     check_aligned_load_offsets(db, rep, "D15-ALIGNED-ONLY-AT-LOOP-OFFSET")
     d17_row_offset_wide(db, rep)
+    memop_width_from_request(db, rep)
     # D16: the code that runs is the program's CURRENT code: a stale attach-time copy of the entry point runs whatever was placed in
     # the freed chunk since - another program, over this one's arrays (shared with C06/C16/C17)
     importlib.import_module("rules.c06").snapshot_slots(db, rep, "D16-LIVE-CODE")
@@ -913,3 +914,76 @@ def d17_row_offset_wide(db, rep, rule="D17-ROW-OFFSET-WIDE"):
         raise AnalysisBroken("only %d row-offset computations found (emulator + C back end)" % n)
     return n
 
+
+
+def memop_width_from_request(db, rep, rule="D18-MEMOP-WIDTH"):
+    """The x86 helpers that operate on memory (`orc_x86_emit_*_memoffset (compiler, size, ..., offset, reg)`) are told the width of
+    the memory operand by their caller: 4 for the int counters and parameters in the OrcExecutor, pointer size for the array
+    pointers.  For every width a caller really asks for (constant arguments, and `is_64bit ? 8 : 4` evaluated both ways), every
+    encoder call the helper can reach under that width must be given exactly that width: a helper that widens a 4-byte
+    read-modify-write to 8 bytes also rewrites the neighbouring field (counter2's neighbour is counter3, the element count of the
+    last region - the loop then runs past every array)."""
+    from exprval import evaluate, reachable_under, NotPure
+    from facts import init_rows
+    tu = db.tu("orcx86")
+    rows = init_rows(db.tu("orcx86insn").global_("orc_x86_opcodes"))
+    WR = {db.enum("ORC_X86_INSN_TYPE_" + t) for t in ("IMM8_REGM", "IMM32_REGM", "IMM32_REGM_MOV", "REGM", "REG_REGM", "REG8_REGM", "REG16_REGM")}
+
+    def writes_memory(c):
+        # the forms whose r/m operand is a destination: op $imm, mem / op mem / mov reg, mem.  (Loads - REGM_REG - read only; for
+        # movzx the encoder's size is the width of the REGISTER, the byte access is the instruction's own.)
+        v = strip_casts(c.args()[1]).v if len(c.args()) > 1 else None
+        ty = rows[v].get("type") if v is not None and 0 <= v < len(rows) else None
+        return ty is not None and ty in WR
+    helpers = {}
+    for f in tu.main_functions():
+        if not any(p_["name"] == "size" for p_ in f.params):
+            continue
+        enc = [c for c in {c.id: c for c in f.calls()}.values() if c.name and c.name.startswith("orc_x86_emit_cpuinsn") and "memoffset" in c.name
+               and writes_memory(c)]
+        if enc:
+            helpers[f.name] = (f, enc)
+    if len(helpers) < 3:
+        raise AnalysisBroken("only %d x86 memory-writing helpers with a size parameter found" % len(helpers))
+    asked = {h: set() for h in helpers}
+    for t in db.tus.values():
+        for g in t.main_functions():
+            for c in g.calls():
+                if c.name in helpers:
+                    f = helpers[c.name][0]
+                    idx = [p_["name"] for p_ in f.params].index("size")
+                    if idx >= len(c.args()):
+                        continue
+                    for is64 in (0, 1):
+                        try:
+                            asked[c.name].add(evaluate(c.args()[idx], {"compiler->is_64bit": is64, "p->is_64bit": is64, "c->is_64bit": is64}))
+                        except (NotPure, ValueError, ZeroDivisionError, KeyError):
+                            pass
+    n = 0
+    for h, (f, enc) in sorted(helpers.items()):
+        cn = f.params[0]["name"]
+        for s in sorted(asked[h]):
+            if s not in (1, 2, 4, 8):
+                continue
+            for is64 in (0, 1):
+                if s == 8 and not is64:
+                    continue
+                env = {"size": s, "%s->is_64bit" % cn: is64}
+                for c in enc:
+                    if not reachable_under(f, env, lambda e, c=c: e.id == c.id):
+                        continue
+                    try:
+                        got = evaluate(c.args()[2], env)
+                    except (NotPure, ValueError, ZeroDivisionError, KeyError):
+                        continue
+                    n += 1
+                    if got != s:
+                        rep.saw(f)
+                    rep.check(got == s, rule, where(f), "%s(size=%d,is_64bit=%d)@%s" % (h, s, is64, c.line),
+                              "the memory operand has the width the caller asked for",
+                              "%s is called with size %d, but the encoder call at line %s is given %d (is_64bit = %d): the instruction reads and writes %d bytes "
+                              "of the OrcExecutor where the field has %d - the neighbouring field is rewritten as well" % (h, s, c.line, got, is64, got, s),
+                              line=c.line)
+    if n < 4:
+        raise AnalysisBroken("only %d (helper, width) pairs evaluated" % n)
+    return n
